@@ -1639,6 +1639,141 @@ def optimizer_findings(seed):
     return list(found.values()), nrun
 
 
+def raising_value_findings(seed):
+    """A parameter is given a value at which an evaluation RAISES (outside the support of a prior: the argument
+    validation of torch.distributions); the caller catches the exception (as the samplers do) and evaluates again
+    without touching the parameter, then assigns an admissible value.  At every point the same object behaves as a
+    freshly built copy holding the same values: it raises where the copy raises, returns what the copy returns."""
+    torch = impl.load()
+    from torchtree.core.model import CallableModel
+    from torchtree.core.utils import process_object
+    rng = random.Random(seed + 7)
+    found, nrun = {}, 0
+
+    def graph():
+        r = lambda a, b: round(rng.uniform(a, b), 3)
+        return [
+            P("x", [r(0.3, 2.0), r(0.3, 2.0)]),
+            dist("prior_x", "Exponential", "x", {"rate": P("rate", [r(0.5, 2.0)])}),
+            dist("prior_y", "Normal", P("y", [r(-1, 1)], REAL), {"loc": "x", "scale": 1.0}),
+            joint("inner", ["prior_x"]),
+            joint("joint", ["inner", "prior_y"]),
+        ]
+
+    def observe(dic):
+        out = {}
+        for k in ("prior_x", "prior_y", "inner", "joint"):
+            try:
+                with torch.no_grad():
+                    out[k] = ("val", dic[k]().detach().clone())
+            except Exception as e:       # noqa
+                out[k] = ("raises", type(e).__name__)
+        return out
+
+    def same(a, b):
+        if a[0] != b[0]:
+            return False
+        return a[1] == b[1] if a[0] == "raises" else torch.allclose(a[1], b[1], rtol=1e-9, atol=1e-12, equal_nan=True)
+
+    for _ in range(4):
+        objs = graph()
+        dic = {}
+        for o in strip(copy.deepcopy(objs)):
+            process_object(o, dic)
+        observe(dic)
+        x0 = dic["x"].tensor.detach().clone()
+        steps = [("x", torch.tensor([-0.5, float(x0[1])])), None, None,
+                 ("x", x0 * rng.uniform(1.1, 1.6)), ("rate", torch.tensor([-1.0])), None,
+                 ("rate", torch.tensor([rng.uniform(0.5, 2.0)]))]
+        hist = []
+        for st in steps:
+            if st is not None:
+                try:
+                    dic[st[0]].tensor = st[1].clone()
+                except Exception as e:       # noqa (an assignment never raises)
+                    key = f"C11:raising-value:assignment-raises:{type(e).__name__}"
+                    found.setdefault(key, (key, f"assigning {st[0]} = {st[1].tolist()} raises {type(e).__name__}", dict(history=hist)))
+                    break
+                hist.append(f"set {st[0]} = {st[1].tolist()}")
+            else:
+                hist.append("evaluate again")
+            got = observe(dic)
+            vals = {k: dic[k].tensor.detach().tolist() for k in ("x", "rate", "y")}
+            ref = observe(build(dict(objects=objs), vals))
+            nrun += 1
+            for k in got:
+                if not same(got[k], ref[k]):
+                    key = f"C11:raising-value:{type(dic[k]).__name__}:{got[k][0]}-where-fresh-{ref[k][0]}"
+                    show = lambda v: v[1] if v[0] == "raises" else v[1].reshape(-1).tolist()[:3]
+                    found.setdefault(key, (key, f"after {hist}: {k} ({type(dic[k]).__name__}) {got[k][0]} {show(got[k])} "
+                                                f"but a freshly built copy holding the same values {ref[k][0]} {show(ref[k])}",
+                                           dict(objects=strip(objs), history=list(hist), observed=k)))
+    return list(found.values()), nrun
+
+
+def anonymous_parameter_findings(seed):
+    """Hyper-parameters written as plain numbers / lists in the specification become parameters WITHOUT an id held by
+    the model (Distribution 'parameters', CompoundGammaDirichletPrior alpha / c / shape / rate).  Each of them is
+    assigned through the object the model holds; every time the model must return what a freshly built copy with that
+    number in its specification returns."""
+    torch = impl.load()
+    from torchtree.core.utils import process_object
+    rng = random.Random(seed + 9)
+    found, nrun = {}, 0
+    r = lambda a, b: round(rng.uniform(a, b), 3)
+
+    def normal(vals):
+        return [dist("d", "Normal", P("x", [0.3, -0.4, 1.1], REAL), {"loc": vals["loc"], "scale": vals["scale"]}),
+                joint("joint", ["d"])]
+
+    def gamma(vals):
+        return [dist("d", "Gamma", P("x", [0.7, 1.9]), {"concentration": vals["concentration"], "rate": vals["rate"]}),
+                joint("joint", ["d"])]
+
+    def cgd(vals):
+        n = ["A", "B", "C", "D"]
+        return [taxa(n), {"id": "tree", "type": "UnRootedTreeModel", "newick": "((A,B),C,D);", "taxa": "taxa",
+                          "branch_lengths": P("bl", [0.1, 0.2, 0.15, 0.3, 0.05])},
+                {"id": "d", "type": "CompoundGammaDirichletPrior", "tree_model": "tree", "alpha": vals["alpha"],
+                 "c": vals["c"], "shape": vals["shape"], "rate": vals["rate"]},
+                joint("joint", ["d"])]
+
+    graphs = [("Distribution[Normal]", normal, dict(loc=0.5, scale=1.5), lambda m: m.dict_parameters),
+              ("Distribution[Gamma]", gamma, dict(concentration=2.0, rate=3.0), lambda m: m.dict_parameters),
+              ("CompoundGammaDirichletPrior", cgd, dict(alpha=1.0, c=0.1, shape=1.0, rate=1.0),
+               lambda m: dict(alpha=m.alpha, c=m.c, shape=m.shape, rate=m.rate))]
+    for name, mk, vals0, held in graphs:
+        try:
+            vals = dict(vals0)
+            dic = {}
+            for o in strip(copy.deepcopy(mk(vals))):
+                process_object(o, dic)
+            dic["joint"]()
+            order = list(vals)
+            rng.shuffle(order)
+            for key in order + order[:1]:
+                vals[key] = round(vals[key] * r(1.2, 1.9), 4)
+                par = held(dic["d"])[key]
+                par.tensor = torch.full_like(par.tensor, vals[key])
+                got = [dic["d"]().detach().clone(), dic["joint"]().detach().clone()]
+                fresh = {}
+                for o in strip(copy.deepcopy(mk(vals))):
+                    process_object(o, fresh)
+                want = [fresh["d"]().detach().clone(), fresh["joint"]().detach().clone()]
+                nrun += 1
+                for what, a, b in zip(("the model", "the joint that contains it"), got, want):
+                    if a.shape != b.shape or not torch.allclose(a, b, rtol=1e-9, atol=1e-12, equal_nan=True):
+                        k = f"C11:anonymous-parameter:{name}:{key}"
+                        found.setdefault(k, (k, f"{name}: hyper-parameter `{key}' (a number in the specification) assigned "
+                                                f"{vals[key]}: {what} returns {a.reshape(-1).tolist()[:3]} but a freshly "
+                                                f"built copy with that number {b.reshape(-1).tolist()[:3]}",
+                                             dict(model=name, assigned=key, values=dict(vals))))
+        except Exception as e:       # noqa
+            k = f"C11:anonymous-parameter:{name}:raises:{type(e).__name__}"
+            found.setdefault(k, (k, f"{name}: {type(e).__name__}: {str(e)[:160]}", dict(model=name)))
+    return list(found.values()), nrun
+
+
 def blind_search(seed):
     """Used when the translator refuses the source: the property on the implementation without any
     wiring knowledge.  For every instance and every registered leaf: evaluate every callable model and
@@ -1802,6 +1937,12 @@ def run(tier, seed, replay=None):
 
     opt_fs, n_opt = optimizer_findings(seed)
     for f in opt_fs:
+        rep.violation(*f)
+    rz_fs, n_rz = raising_value_findings(seed)
+    for f in rz_fs:
+        rep.violation(*f)
+    an_fs, n_an = anonymous_parameter_findings(seed)
+    for f in an_fs:
         rep.violation(*f)
     bad, nrt = runtime_crosscheck(table)
     for b in bad[:3]:
@@ -2011,7 +2152,8 @@ def run(tier, seed, replay=None):
                 "copy (rtol 1e-9); non-trivial = updates touch >= 2 different parameters and at least one "
                 "evaluation; distinct = distinct (instance, abstract operation sequence)")
     rep.extra = dict(
-        input_distribution=opdist, optimizer_runs_compared_with_fresh_rebuild=n_opt, traces_validated_against_impl=len(mres), model_undefined=0,
+        input_distribution=opdist, optimizer_runs_compared_with_fresh_rebuild=n_opt,
+        evaluations_around_a_raising_value=n_rz, assignments_of_anonymous_hyper_parameters=n_an, traces_validated_against_impl=len(mres), model_undefined=0,
         model_pessimistic_evaluations=pess, stale_evaluations_on_impl=nstale, raising_updates_on_impl=nraise,
         translator_units=[f"{len(table)} classes -> gen/G_handlers.v (handlers, tensor setters, cache flags, "
                           "listener attribute, fire_* loops)"],
